@@ -492,7 +492,7 @@ def pretty(query):
 MAX_DRILL_LINES = 8      # differing sweep lines expanded per run
 MAX_PER_LINE = 5         # individual mismatches kept per expanded line
 
-def run(group, tier='quick', seed=1, release=False, verbose=False, builds=None):
+def run(group, tier='quick', seed=1, release=False, verbose=False, builds=None, oracle=None):
     t0 = time.time()
     if builds is None:
         builds = build(release if group != 'rect' else False)
@@ -592,9 +592,14 @@ def run(group, tier='quick', seed=1, release=False, verbose=False, builds=None):
     # ---- drill down into differing sweep lines: at most 2 lines per query, MAX_DRILL_LINES in all
     per_query = {}
     rest = []
-    for bl in bad_lines:
-        if len(drill) < MAX_DRILL_LINES and per_query.get(bl[0], 0) < 2:
-            per_query[bl[0]] = per_query.get(bl[0], 0) + 1
+    # spread the expanded lines over the differing ones (first, last and evenly in between)
+    if len(bad_lines) > MAX_DRILL_LINES:
+        step = (len(bad_lines) - 1) / float(MAX_DRILL_LINES - 1)
+        pick = sorted({int(round(i * step)) for i in range(MAX_DRILL_LINES)})
+    else:
+        pick = list(range(len(bad_lines)))
+    for i, bl in enumerate(bad_lines):
+        if i in pick:
             drill.append(bl)
         else:
             rest.append(bl)
@@ -603,9 +608,15 @@ def run(group, tier='quick', seed=1, release=False, verbose=False, builds=None):
         found = 0
         if sub:
             r2 = run_queries(sub, hexe, mexe, "%s-%s-drill" % (group, tier), errors)
+            diffs = []
             for s in sub:
                 a, b = r2[s.text]
                 if a != b:
+                    diffs.append((s, a, b))
+            if oracle is not None:
+                # inputs on which the REAL answer contradicts the property itself come first
+                diffs.sort(key=lambda d: 0 if oracle(d[0].text, ' / '.join(d[1])) else 1)
+            for (s, a, b) in diffs:
                     found += 1
                     if found <= MAX_PER_LINE:
                         drilled.append(dict(query=s.text, where=pretty(s.text) + "   [from `%s` line `%s`]" % (query if len(query) < 70 else query[:67] + '...', key),
